@@ -249,6 +249,7 @@ ADDED5 = {
     "C11": "Session 5: the index loader stores exact keys (never through the mutator that redirects to a normalised key).",
     "C07": "Session 5: reftable tables unlinked only after the tables.list that no longer names them has been committed.",
     "C14": "Session 5: every caller asks generate_commit_graph for a closed graph (known finding: reachable=False, pinned by a test).",
+    "C20": "Session 5: settings merged from [include]d files never reach write_to_file (known finding F20.8).",
     "C16": "Session 5: every ref-file write refuses names colliding with a PACKED ref, upwards and downwards; reftable suffix_and_type written and read with one total varint codec.",
 }
 for _k, _v in ADDED5.items():
